@@ -1,4 +1,3 @@
-# one entry per claimed property:  check(id, category, text, note, technique, design_ref)
 check('C15', 'proof',
       'Coq theorems T15_* (all spectra of every length, all option combinations) about an executable model of '
       'truncation.truncate: suffix-of-sorted-spectrum threshold, priority of chi_max/chi_min/degeneracy/svd_min/trunc_cut, '
